@@ -360,6 +360,23 @@ pub fn designed() -> Vec<SerVal> {
         out.push(Map(xs.iter().enumerate().map(|(i, x)| (Str(format!("f{}", i)), x.clone())).collect()));
     }
     out.push(Map(vec![(Fail("custom:key".into()), U8(1))]));
+    // long failure messages, ASCII and multi-byte, of every length around the usual buffer sizes: the original error
+    // must come back whole (and building it must not panic)
+    for unit in ["x", "é", "日", "😀"] {
+        for target in [60usize, 64, 120, 128, 250, 256, 260, 512, 1024, 4096] {
+            for shift in 0..4 {
+                let msg = format!("custom:{}{}", "a".repeat(shift), unit.repeat(target / unit.len() + 2));
+                out.push(Fail(msg.clone()));
+                out.push(Struct("S".into(), vec![("ok".into(), U8(1)), ("bad".into(), Fail(msg))]));
+            }
+        }
+    }
+    // long strings, keys and collections (nothing is abridged)
+    out.push(Str("é日😀".repeat(400)));
+    out.push(Map(vec![(Str("k".repeat(300)), Str("v".repeat(300)))]));
+    out.push(Seq((0..300).map(|i| U16(i as u16)).collect()));
+    out.push(Map((0..300).map(|i| (Str(format!("k{:03}", i)), U16(i as u16))).collect()));
+    out.push(Bytes((0..=255u8).collect()));
     out.push(Some(Box::new(Some(Box::new(None)))));
     out.push(Unit); out.push(None); out.push(UnitStruct("U".into()));
     out
